@@ -87,7 +87,12 @@ def run_worker(wid, variants, keep=False):
                     fired.append(line.strip())
             want = v.get("expect", "")
             hit = [l for l in fired if want in l]
-            if r.returncode == 2:
+            if v.get("silent"):
+                # negative control: a behaviour-preserving edit must not raise an alarm
+                res["status"] = "silent-ok" if r.returncode == 0 else "FALSE-ALARM"
+                if r.returncode != 0:
+                    res["out"] = outp[-800:]
+            elif r.returncode == 2:
                 res["status"] = "does-not-build"
                 res["out"] = outp[-1500:]
             elif r.returncode == 1 and hit:
@@ -133,12 +138,12 @@ def main():
     for r in results:
         st = r["status"]
         print("%-14s %-40s %s" % (st, r["id"], r.get("report") or r.get("why") or ""))
-        if st in ("MISSED", "does-not-build", "fired-other"):
+        if st in ("MISSED", "does-not-build", "fired-other", "FALSE-ALARM"):
             bad += 1
             if r.get("out"):
                 print("    " + r["out"].replace("\n", "\n    "))
     n_app = len([r for r in results if r["status"] != "not-applicable"])
-    n_fired = len([r for r in results if r["status"] == "fired"])
+    n_fired = len([r for r in results if r["status"] in ("fired", "silent-ok")])
     print("selftest: fired %d/%d applicable (%d not applicable)" % (n_fired, n_app, len(results) - n_app))
     if a.json:
         with open(a.json, "w") as fh:
